@@ -26,6 +26,11 @@ CURVES = {
     "bad1": ("recorded", "fmt-jpk-fd_single_bad_2017-01-16_1.jpk-force"),
     "bad2": ("recorded", "fmt-jpk-fd_single_bad_2017-01-16_2.jpk-force"),
     "bad5": ("recorded", "fmt-jpk-fd_single_bad_2017-01-16_5.jpk-force"),
+    # tilted baselines, piezo lag: segment discovery has something to do
+    "tilt1": ("recorded", "fmt-jpk-fd_single_tilted-baseline-drift-mitotic"
+                          "_2021-01-29.jpk-force"),
+    "lag1": ("synth", dict(n_app=500, n_ret=400, noise=3e-11, seed=4,
+                           tilt=4e-5, drift=2e-10, lag=12)),
 }
 
 
